@@ -129,7 +129,15 @@ def handleTables : Handler := fun input impl =>
         let implUndef := sortStrs ((idiags.filterMap fun d => match d with
           | .list [.str "undefined_variable", .list [a, _], _, _] => a.asNat?
           | _ => none).eraseDups.map toString)
-        let coreOk := showAns coreRefs == showAns implReads && showAns coreDecls == showAns implDecls && coreUndef == implUndef
+        -- … and which reads are of the table indexed in an assignment target (`Props/C02.lean`: value uses) against
+        -- the implementation's references that are both read and written by extension
+        let coreRoots := sortStrs ((coreSt.refs.filter fun r => !r.decl && !r.write && r.root).map fun r => toString r.tok)
+        let implRoots := sortStrs (irefs.filterMap fun r => match r with
+          | .list (t :: _n :: _res :: rd :: w :: _) =>
+            if rd.asBool? == some true && toString w != "none" then t.asNat?.map toString else none
+          | _ => none)
+        let coreOk := showAns coreRefs == showAns implReads && showAns coreDecls == showAns implDecls && coreUndef == implUndef &&
+          coreRoots == implRoots
         -- ---------- specification checks on the implementation's tables / diagnostics ----------
         let declToks := spec.decls.map (·.tok)
         -- implementation's view: token ↦ resolved declaration token (only script declarations count as local bindings)
@@ -235,7 +243,7 @@ def handleTables : Handler := fun input impl =>
           model := (if md == idk then "" else "DEFAULT-CONFIG-DIAGS ") ++ (if panicOk then "" else s!"MODEL-PANIC {repr σ.panic} ") ++
                    (if refsOk then "" else s!"REFS model {mrefs} ") ++ (if varsOk then "" else s!"VARS model {mvars} ") ++
                    (if callsOk then "" else s!"CALLS model {mcalls} ") ++
-                   (if coreOk then "" else s!"CORE model reads {showAns coreRefs} impl {showAns implReads} decls {showAns coreDecls} impl {showAns implDecls} undefined {coreUndef} impl {implUndef} ") ++ (if diagsOk then "" else s!"DIAGS model {md} impl {idk}"),
+                   (if coreOk then "" else s!"CORE model reads {showAns coreRefs} impl {showAns implReads} decls {showAns coreDecls} impl {showAns implDecls} undefined {coreUndef} impl {implUndef} roots {coreRoots} impl {implRoots} ") ++ (if diagsOk then "" else s!"DIAGS model {md} impl {idk}"),
           tags }
       | _ => .malformed "tables impl"
     | _, _ => .malformed "tables chunk"
